@@ -1,4 +1,5 @@
 import QuiverModel.Lemmas.Resources.Reach
+import QuiverModel.Lemmas.Resources.Persistent
 /-!
 # C14 — a resource is usable only by its single owner and is closed exactly once
 
@@ -251,6 +252,15 @@ changes nothing at all — its resources stay registered and open. -/
 theorem sleeping_report_changes_nothing (s : Sys) (a p : Pid) (hp : p ∈ s.env.persistent) :
     (step s (.awaitReport a p)).env = s.env := by
   simp [step, Event.awaitReport, handleProcessResults, cleans, hp, handleCleanups]
+
+/-- Only `start_process` makes a process persistent: after any history, the process a spawn is
+about to create is not persistent — so a spawned process that reports a value IS cleaned up; the
+exemption of the repair concerns exactly the processes started through `start_process`. -/
+theorem spawned_process_not_persistent (n : Nat) (h : List Event) :
+    (run (init n) h).env.nextPid ∉ (run (init n) h).env.persistent := by
+  intro hm
+  have : PersInv (init n) := by intro p hp; simp [init] at hp
+  exact absurd (persInv_run this h _ hm) (Nat.lt_irrefl _)
 
 /-- A FAILED persistent process can never be resumed: it is cleaned up like any other. -/
 theorem failed_persistent_is_cleaned (s : Sys) (a p : Pid) :
